@@ -134,8 +134,15 @@ class Resolver:
         # `if c: x = A else: x = B`  ==  `x = A if c else B`;  `x = B` ... `if c: x = A`  ==  the same:
         # a local with exactly these two bindings is its conditional expression
         def _only_assign(block: list[ast.stmt], name: str) -> ast.expr | None:
-            hits = [st for st in block if isinstance(st, ast.Assign) and len(st.targets) == 1 and isinstance(st.targets[0], ast.Name) and st.targets[0].id == name]
+            hits = [st for st in block if _simple_assign(st) == name]
             return hits[0].value if len(hits) == 1 else None
+
+        def _simple_assign(st: ast.stmt) -> str | None:
+            if isinstance(st, ast.Assign) and len(st.targets) == 1 and isinstance(st.targets[0], ast.Name):
+                return st.targets[0].id
+            if isinstance(st, ast.AnnAssign) and st.value is not None and isinstance(st.target, ast.Name):
+                return st.target.id
+            return None
 
         def _blocks(node: ast.AST):
             for fld in ("body", "orelse", "finalbody"):
@@ -159,7 +166,7 @@ class Resolver:
                             b = _only_assign(st.orelse, name) if st.orelse else None
                             if b is None and not st.orelse:
                                 # default before the `if` in the same block, not read in between
-                                prev = [p for p in block[:idx] if isinstance(p, ast.Assign) and len(p.targets) == 1 and isinstance(p.targets[0], ast.Name) and p.targets[0].id == name]
+                                prev = [p for p in block[:idx] if _simple_assign(p) == name]
                                 if len(prev) == 1:
                                     k = block.index(prev[0])
                                     between = block[k + 1 : idx]
@@ -210,8 +217,15 @@ def _assignments(n: ast.AST):
             yield nm, None
             yield nm, None
     elif isinstance(n, (ast.For, ast.AsyncFor)):
-        for nm in _names(n.target):
-            yield nm, None
+        it = n.iter
+        if isinstance(n.target, ast.Tuple) and len(n.target.elts) == 2 and all(isinstance(x, ast.Name) for x in n.target.elts) and isinstance(it, ast.Call) and isinstance(it.func, ast.Name) and it.func.id == "enumerate" and len(it.args) == 1 and not it.keywords and isinstance(it.args[0], (ast.Name, ast.Attribute)):
+            # `for i, x in enumerate(xs)`: x is xs[i] (the index stays an opaque loop variable)
+            yield n.target.elts[0].id, None  # type: ignore[attr-defined]
+            sub = ast.Subscript(value=it.args[0], slice=ast.Name(id=n.target.elts[0].id, ctx=ast.Load()), ctx=ast.Load())  # type: ignore[attr-defined]
+            yield n.target.elts[1].id, ast.fix_missing_locations(ast.copy_location(sub, it))  # type: ignore[attr-defined]
+        else:
+            for nm in _names(n.target):
+                yield nm, None
     elif isinstance(n, ast.NamedExpr):
         yield from _bind(n.target, n.value)
     elif isinstance(n, (ast.With, ast.AsyncWith)):
@@ -321,3 +335,65 @@ def lin_sub(a: Lin, b: Lin) -> Lin:
     for k, v in b.items():
         out[k] = out.get(k, Fraction(0)) - v
     return {k: v for k, v in out.items() if v != 0}
+
+
+# ---------------------------------------------------------------- control shape
+def shape_of(fn: ast.AST) -> str:
+    """Fingerprint of a function's control skeleton, insensitive to what behaviour-preserving
+    clean-ups change but the analyses see through: names, expressions, assignments to local names
+    (introduced / inlined / hoisted locals, loop counters), `while` vs `for`, the order of the two
+    branches of an `if`, a guard clause vs an `else`.  Sensitive to: the nesting of branches and
+    loops and the exits (return / raise / break / continue), call statements and stores into
+    attributes or subscripts inside them."""
+
+    def term(block: list[ast.stmt]) -> bool:
+        return bool(block) and isinstance(block[-1], (ast.Return, ast.Raise, ast.Continue, ast.Break))
+
+    def blk(block: list[ast.stmt]) -> str:
+        out: list[str] = []
+        i = 0
+        while i < len(block):
+            s = block[i]
+            if isinstance(s, (ast.FunctionDef, ast.AsyncFunctionDef, ast.ClassDef, ast.Import, ast.ImportFrom, ast.Pass, ast.Global, ast.Nonlocal, ast.Assert)):
+                i += 1
+                continue
+            if isinstance(s, ast.Expr) and isinstance(s.value, ast.Constant):
+                i += 1
+                continue
+            if isinstance(s, ast.If):
+                body, orelse = s.body, s.orelse
+                rest = block[i + 1 :]
+                if not orelse and term(body) and rest:
+                    orelse, rest = rest, []
+                    i = len(block)
+                a, b = blk(body), blk(orelse)
+                if a or b:
+                    out.append("if{" + "|".join(sorted([a, b])) + "}")
+                i += 1
+                continue
+            if isinstance(s, (ast.For, ast.AsyncFor, ast.While)):
+                out.append("loop{" + blk(s.body) + ("|else:" + blk(s.orelse) if s.orelse else "") + "}")
+            elif isinstance(s, ast.Try):
+                out.append("try{" + blk(s.body) + "|" + "|".join(blk(h.body) for h in s.handlers) + ("|" + blk(s.finalbody) if s.finalbody else "") + "}")
+            elif isinstance(s, (ast.With, ast.AsyncWith)):
+                out.append("with{" + blk(s.body) + "}")
+            elif isinstance(s, ast.Return):
+                out.append("ret")
+            elif isinstance(s, ast.Raise):
+                out.append("raise")
+            elif isinstance(s, ast.Break):
+                out.append("break")
+            elif isinstance(s, ast.Continue):
+                out.append("continue")
+            elif isinstance(s, ast.Expr):
+                out.append("call")
+            elif isinstance(s, (ast.Assign, ast.AnnAssign, ast.AugAssign)):
+                tgts = s.targets if isinstance(s, ast.Assign) else [s.target]
+                if any(isinstance(x, (ast.Attribute, ast.Subscript)) for t in tgts for x in ([t] if not isinstance(t, (ast.Tuple, ast.List)) else t.elts)):
+                    out.append("store")
+            elif isinstance(s, ast.Delete):
+                out.append("del")
+            i += 1
+        return ",".join(out)
+
+    return blk(list(getattr(fn, "body", [])))
